@@ -18,11 +18,13 @@ static COUNTER: AtomicUsize = AtomicUsize::new(0);
 const SCRATCH: &str = concat!(env!("CARGO_MANIFEST_DIR"), "/../.scratch");
 
 /// Fixed cases replayed first in every run: (replicas, has_headers, content).
-const FIXED: [(u64, bool, &[u8]); 14] = [
+const FIXED: [(u64, bool, &[u8]); 16] = [
     // F13: a quoted first field containing a line feed; the boundary of 2 replicas falls inside it
     (2, false, b"\"aaaaaaaa\nb\"\nc\nd\n"),
     (1, false, b"\"aaaaaaaa\nb\"\nc\nd\n"),          // same file, one replica: fine
     (2, true, b"h\n\"aaaaaaaa\nb\"\nc\nd\n"),         // same with a header
+    (1, true, b"\"h\nx\",k\na,b\n"),                  // F13b: quoted line feed in the header record, 1 replica
+    (3, true, b"\"h\nx\",k\na,b\nc,d\ne,f\n"),        // F13b with 3 replicas
     (3, false, b"\"a\r\nbbbbbb\",x\r\n\"c\",y\r\n\"d\",z\r\n"), // CRLF inside quotes
     (2, false, b"\"a\"\"b\",c\n\"d,e\",f\n"),         // escaped quote, delimiter inside quotes
     (4, true, b"k,v\n\"x\ny\",1\nz,2\n\"p\nq\nr\",3\n"), // several quoted terminators
@@ -130,8 +132,10 @@ fn gen(rng: &mut Rng, i: usize) -> Case {
     // how much quoting: 0 none, 1 harmless quoting only, 2 also terminators inside quotes
     let quoting = rng.below(3);
     let maxlen = *rng.pick(&[1i64, 2, 3, 5, 12, 30]);
+    // 1 case in 8 of those with terminators inside quotes also allows them in the header record (F13b)
+    let hdr_nl = rng.chance(1, 8);
     let field = |rng: &mut Rng, bytes: &mut Vec<u8>, header: bool| {
-        let kind = if quoting == 0 { 0 } else { rng.below(if quoting == 2 && !header { 6 } else { 4 }) };
+        let kind = if quoting == 0 { 0 } else { rng.below(if quoting == 2 && (!header || hdr_nl) { 6 } else { 4 }) };
         let lo = if k == 1 { 1 } else { 0 };
         match kind {
             0 | 1 => {
@@ -164,9 +168,9 @@ fn gen(rng: &mut Rng, i: usize) -> Case {
             // has_headers on an empty file
             return c;
         }
-        // header record. It never contains a line terminator inside quotes: `header_size` is computed with
-        // the same quote-blind `read_until(b'\n')` (csv.rs:298-305), so such a header is cut as well, even
-        // with a single replica — reported separately from F13, see checks.d/C15.json
+        // header record. `header_size` is computed with the same quote-blind `read_until(b'\n')`
+        // (csv.rs:298-305), so a header with a quoted line terminator is cut as well, even with a single
+        // replica — known finding F13b (`hdr_nl` cases)
         for f in 0..k {
             if f > 0 {
                 bytes.push(b',');
